@@ -732,8 +732,16 @@ def run_case(case):
                 lw2.install()
                 try:
                     alone = run.single_point(Zb, Xb, sett, charges=qb, mult=mb)
-                except Exception:
+                except scfmon.FailPoint:
                     alone = None
+                    viol.append({"clause": "termination", "mech": None,
+                                 "detail": dict(detail_common, row=b, where="alone-run of the row", failpoint=dict(lw2.fired or {}))})
+                except Exception as exc:
+                    alone = None
+                    if "converge" not in str(exc).lower():
+                        # the row completed (flagged converged) inside the batch: the same molecule alone must not raise
+                        viol.append({"clause": "sp2-row-alone-run-raised", "mech": None,
+                                     "detail": dict(detail_common, row=b, exception="%s: %s" % (type(exc).__name__, str(exc)[:300]))})
             finally:
                 lw2.uninstall()
             if alone is None or bool(np.any(alone["notconverged"])):
